@@ -28,7 +28,7 @@ Expected(s, line) ==
     [] line.op = "plus" -> Place(s, PlusValue(s), Arg(line.in.arg))
     [] line.op = "remove_last" -> RemoveLast(s)
     [] line.op = "set_item" -> SetItem(s, line.in.i, Arg(line.in.arg))
-    [] line.op = "place_at" -> PlaceAt(s, line.in.i, Arg(line.in.arg))
+    [] line.op \in {"place_at", "place_at_obj"} -> PlaceAt(s, line.in.i, Arg(line.in.arg))
     [] line.op = "place_at_beat" ->      \* the beat is a position in whole notes (1 = one whole note after the start), not an index
          LET hit == {i \in 1..Len(s.entries) : s.entries[i].at = line.in.beat * L /\ ~s.entries[i].c.rest} IN
          IF hit = {} THEN s ELSE PlaceAt(s, CHOOSE i \in hit : TRUE, Arg(line.in.arg))
@@ -51,7 +51,7 @@ Clause(s, line) ==
     [] line.op = "remove_last" ->
          IF ~line.ok THEN "operation-raised"
          ELSE IF ObsState(line.obs) # Expected(s, line) THEN "remove-last-entry" ELSE Derived(Expected(s, line), line.obs)
-    [] line.op \in {"set_item", "place_at", "place_at_beat"} ->
+    [] line.op \in {"set_item", "place_at", "place_at_beat", "place_at_obj"} ->
          IF ~line.ok THEN "operation-raised"
          ELSE IF ObsState(line.obs) # Expected(s, line) THEN "content-edit-changes-only-that-entry" ELSE Derived(Expected(s, line), line.obs)
     [] line.op = "set_meter" ->
